@@ -1300,8 +1300,9 @@ def inspect_cache(cache_dir, docs, md5_to_url, is_pickle):
 
 
 class Watchdog(object):
-    """A load that takes longer than `seconds` is stopped (suds never blocks:
-    all sources are in memory)."""
+    """A load that uses more than `seconds` of CPU time is stopped (suds never
+    blocks: all sources are in memory; CPU time, not wall time, so that a busy
+    machine cannot make a load look like a runaway)."""
 
     class Timeout(Exception):
         pass
@@ -1313,15 +1314,25 @@ class Watchdog(object):
         import signal
 
         def handler(*a):
-            raise Watchdog.Timeout("load did not finish within %ss" % self.seconds)
-        self.old = signal.signal(signal.SIGALRM, handler)
-        signal.setitimer(signal.ITIMER_REAL, self.seconds)
+            raise Watchdog.Timeout("load did not finish within %ss of CPU time" % self.seconds)
+        self.old = signal.signal(signal.SIGVTALRM, handler)
+        signal.setitimer(signal.ITIMER_VIRTUAL, self.seconds)
 
     def __exit__(self, *a):
         import signal
-        signal.setitimer(signal.ITIMER_REAL, 0)
-        signal.signal(signal.SIGALRM, self.old)
+        signal.setitimer(signal.ITIMER_VIRTUAL, 0)
+        signal.signal(signal.SIGVTALRM, self.old)
         return False
+
+
+def confirmed_runaway(L, policy, fault):
+    """Repeat (without a cache) a load the watchdog stopped."""
+    try:
+        with Watchdog(60):
+            r = load_client(L.docs, L.in_store, L.root, policy=policy, cache=None, fault=fault)
+    except Watchdog.Timeout:
+        return True
+    return r.runaway or isinstance(r.exc, (Watchdog.Timeout, RecursionError))
 
 
 def run_scenario(L, policy, steps, cache_kind, tmp):
@@ -1346,11 +1357,14 @@ def run_scenario(L, policy, steps, cache_kind, tmp):
         o = Obs()
         o.fresh, o.fault = fresh, fault
         try:
-            with Watchdog(20):
+            with Watchdog(30):
                 r = load_client(L.docs, L.in_store, L.root, policy=policy, cache=cache, fault=fault)
         except Watchdog.Timeout as e:
             r = LoadResult()
             r.client, r.exc, r.events, r.fired, r.failed, r.runaway = None, e, [], False, False, True
+        if isinstance(r.exc, Watchdog.Timeout) and not confirmed_runaway(L, policy, fault):
+            raise RuntimeError("C12 harness: a load was stopped by the watchdog but finishes when repeated "
+                               "(machine too busy?) -- no verdict")
         o.exc = r.exc
         o.klass = r.klass()
         if r.runaway or isinstance(r.exc, (Watchdog.Timeout, RecursionError)):
@@ -1360,7 +1374,7 @@ def run_scenario(L, policy, steps, cache_kind, tmp):
         o.fp, o.fpfull = 0, None
         if r.client is not None:
             try:
-                with Watchdog(20):
+                with Watchdog(30):
                     o.fpfull = fingerprint(r.client)
                 o.fp = fp_digest(o.fpfull)
             except Exception as e:   # noqa
@@ -1496,7 +1510,7 @@ def layouts_for(ck):
             order = "safe" if rng.random() < 0.8 else "target"
             out.append(build_graph_layout(rng, kinds, edges, order=order))
     # partitions of generated interfaces
-    want = 1500 if thorough else 130
+    want = 500 if thorough else 130
     got = 0
     while got < want:
         I = gen_iface(rng)
@@ -1509,15 +1523,18 @@ def layouts_for(ck):
     return out
 
 
-def steps_for(ck, nfetch, policy, idx, clean_ok):
+def steps_for(ck, nfetch, policy, idx, clean_ok, L=None):
     steps = [(True, None)]
     if policy == 0:
         steps.append((False, None))            # reload from the warm document cache
     if not clean_ok:
         return steps
     kinds = ("raise", "garbage")
+    big_graph = L is not None and L.kind == "graph" and len(L.docs) >= 3
+    if ck.tier == "thorough" and big_graph and policy != idx % 2:
+        return steps          # all 3-document graphs: every fault point under one policy each
     for k in range(nfetch):
-        if ck.tier == "thorough":
+        if ck.tier == "thorough" and not big_graph:
             ks = kinds
         else:
             ks = (kinds[(k + policy + idx) % 2],)
@@ -1584,11 +1601,14 @@ def run(ck):
                             "cannot be inspected: %r" % (e,), dict(L.payload(), policy=0))
                 continue
             try:
-                with Watchdog(20):
+                with Watchdog(30):
                     probe = load_client(L.docs, L.in_store, L.root)
             except Watchdog.Timeout as e:
                 probe = LoadResult()
                 probe.client, probe.exc, probe.events, probe.runaway = None, e, [], True
+            if isinstance(probe.exc, Watchdog.Timeout) and not confirmed_runaway(L, 0, None):
+                raise RuntimeError("C12 harness: a load was stopped by the watchdog but finishes when "
+                                   "repeated (machine too busy?) -- no verdict")
             if probe.runaway or isinstance(probe.exc, (Watchdog.Timeout, RecursionError)):
                 ck.seen((L.desc, idx, "probe"), nontrivial=len(L.docs) > 1)
                 ck.failing_input("C12:load-does-not-terminate",
@@ -1597,7 +1617,7 @@ def run(ck):
                 continue
             nfetch = sum(1 for k, _ in probe.events if k == "S")
             for policy in (0, 1):
-                steps = steps_for(ck, nfetch, policy, idx, probe.exc is None)
+                steps = steps_for(ck, nfetch, policy, idx, probe.exc is None, L)
                 sub = os.path.join(tmp, "l%d_%d" % (idx, policy))
                 os.makedirs(sub)
                 obs = run_scenario(L, policy, steps, "doc" if idx % 2 == 0 else "obj", sub)
@@ -1616,6 +1636,10 @@ def run(ck):
             for k, v in L.shape.items():
                 if v is True:
                     ck.count("shape:" + k)
+            if idx % 50 == 49:
+                import gc
+                gc.collect()
+                gc.freeze()         # what is kept for the verdict is not rescanned by later collections
             if idx % 40 == 0:
                 ck.sample({"layout": L.desc, "documents": sorted(L.docs), "in_store": sorted(L.in_store),
                            "requests": probe.events[:12], "fetches": nfetch})
@@ -1656,7 +1680,8 @@ def run(ck):
                "returns ill-formed bytes followed by a healthy retry (%s).  One evaluation = one client "
                "construction compared with the model; non-trivial = more than one document."
                % ("all" if ck.tier == "thorough" else "a sample",
-                  "both fault kinds" if ck.tier == "thorough" else "fault kinds alternating"))
+                  "both fault kinds; for the 3-document graphs one policy per graph with fault points, kinds "
+                  "alternating" if ck.tier == "thorough" else "fault kinds alternating"))
     return None
 
 
